@@ -34,8 +34,8 @@ var spxProps = map[string][]string{
 	"C18": {"S1", "S6"},
 	"C02": {"S5", "S8"},
 	"C07": {"S8"},
-	"C11": {"S7"},
-	"C12": {"S5", "S6", "S7", "S8", "S11"},
+	"C11": {"S7", "S15"},
+	"C12": {"S5", "S6", "S7", "S8", "S11", "S15"},
 }
 
 func spxScenarioFor(name string) *spxScenario {
@@ -521,20 +521,27 @@ func spxClientRules(x *spxInst, sc *spxScenario, prop string, add func(rule, sha
 			}
 		}
 	case "C11":
-		// S7: GOAWAY(last-stream-id 1) on connection 0 after the first request of the phase; a second connection answers
-		sent := map[string][]string{} // path -> "conn/stream" list
-		for ci, sc := range h.Conns {
-			for _, id := range sc.Order {
-				p := hdrVal(sc.Streams[id].Fields, ":path")
-				sent[p] = append(sent[p], fmt.Sprintf("%d/%d", ci, id))
+		// S7: GOAWAY(1) with one request in flight; S15: GOAWAY(2^31-1) then GOAWAY(3) with two in flight,
+		// stream 3 answered afterwards. A second scripted connection answers its streams 1 and 3.
+		last := uint32(1)
+		answered0 := map[uint32]string{}
+		if short == "S15" {
+			last = 3
+			answered0[3] = "first"
+		}
+		answered1 := map[uint32]string{1: "n1", 3: "n2"}
+		answered2 := map[uint32]string{1: "m1"}
+		// the acknowledgement of the PING that follows the GOAWAY: nothing may be opened on the connection after it
+		ackAt := -1
+		for i, f := range phase {
+			if f.Type == peer.TPing && f.Has(peer.FAck) && len(f.Payload) == 8 && f.Payload[0] == 7 {
+				ackAt = i
 			}
 		}
-		goAwayRan := false
-		for _, st := range x.steps("inject") {
-			fs, _ := peer.Parse(st.Bytes)
-			for _, f := range fs {
-				if f.Type == peer.TGoAway && st.Ran {
-					goAwayRan = true
+		if ackAt >= 0 {
+			for i, f := range phase {
+				if i > ackAt && f.Type == peer.THeaders {
+					add("new-stream-after-goaway", "", fmt.Sprintf("stream %d opened on the connection after the client had read the GOAWAY (its PING acknowledgement is frame %d of the phase, the HEADERS frame %d)", f.Stream, ackAt, i))
 				}
 			}
 		}
@@ -542,35 +549,52 @@ func spxClientRules(x *spxInst, sc *spxScenario, prop string, add func(rule, sha
 			if cl.Tag == "warm" {
 				continue
 			}
-			where := sent["/"+cl.Tag]
-			onZero, onOne := 0, 0
-			var oneID uint32
-			for _, w := range where {
-				var ci int
-				var id uint32
-				fmt.Sscanf(w, "%d/%d", &ci, &id)
-				if ci == 0 {
-					onZero++
-				} else {
-					onOne++
-					oneID = id
+			var id0, id1, id2 uint32
+			n0, n1 := 0, 0
+			for ci, sc := range h.Conns {
+				for _, id := range sc.Order {
+					if hdrVal(sc.Streams[id].Fields, ":path") != "/"+cl.Tag {
+						continue
+					}
+					switch ci {
+					case 0:
+						id0 = id
+						n0++
+					case 1:
+						id1 = id
+						n1++
+					default:
+						id2 = id
+						n1++
+					}
 				}
 			}
-			if onZero > 1 || onOne > 1 {
-				add("request-sent-twice", "", fmt.Sprintf("request %s reached the servers on %v", cl.Tag, where))
+			where := fmt.Sprintf("connection 0 stream %d, connection 1 stream %d, connection 2 stream %d", id0, id1, id2)
+			if n0 > 1 || n1 > 1 || (n0 == 1 && n1 == 1 && id0 <= last) {
+				add("request-sent-twice", "", fmt.Sprintf("request %s reached the servers %d+%d times (%s); last-stream-id %d", cl.Tag, n0, n1, where, last))
 			}
-			if cl.Done && cl.Err == nil {
-				// connection 0 never answers in this harness: a success must come from connection 1
-				want := map[uint32]string{1: "n1", 3: "n2"}[oneID]
-				if onOne == 0 || string(cl.Body) != want {
-					add("disclaimed-request-succeeded", "", fmt.Sprintf("request %s reports success with body %q; it was sent on %v and connection 0 disclaimed everything above stream 1", cl.Tag, cl.Body, where))
+			disclaimed := id0 > last || id0 == 0
+			switch {
+			case cl.Done && cl.Err == nil:
+				ok := id1 != 0 && string(cl.Body) == answered1[id1] || id2 != 0 && string(cl.Body) == answered2[id2]
+				if want, has := answered0[id0]; has && id0 <= last && string(cl.Body) == want {
+					ok = true
 				}
-			}
-		}
-		if goAwayRan && len(h.Conns) > 0 {
-			// nothing new on the connection once the GOAWAY has been read: streams opened on it are bounded by what was in flight
-			if n := len(h.Conns[0].Order) - x.markStreams; n > 2 {
-				add("new-stream-after-goaway", "", fmt.Sprintf("%d streams opened on the connection during the phase", n))
+				if !ok {
+					add("wrong-or-disclaimed-success", "", fmt.Sprintf("request %s reports success with body %q (%s; last-stream-id %d)", cl.Tag, cl.Body, where, last))
+				}
+			case cl.Done:
+				if cl.Retry && !disclaimed {
+					add("retryable-although-processed", "", fmt.Sprintf("request %s on stream %d (at or below last-stream-id %d) reported retryable: %v", cl.Tag, id0, last, cl.Err))
+				}
+			default:
+				// at the quiescent state after every environment step: whatever was disclaimed, or never sent, must have ended or moved on
+				if id1 == 0 && id2 == 0 && (id0 == 0 || id0 > last) && ackAt >= 0 {
+					add("disclaimed-request-left-waiting", "", fmt.Sprintf("request %s (%s) is still waiting at quiescence although the client has read GOAWAY(last-stream-id %d); live: %v", cl.Tag, where, last, h.S.Live()))
+				}
+				if id0 != 0 && id0 <= last && answered0[id0] != "" {
+					add("promised-response-not-delivered", "", fmt.Sprintf("request %s on stream %d was answered after the GOAWAY and is still waiting", cl.Tag, id0))
+				}
 			}
 		}
 	case "C07":
